@@ -558,6 +558,7 @@ func (e *Engine) forStmt(s *ast.ForStmt, in []*State) []*State {
 		out = append(out, e.take(e.cont, s)...)
 		e.take(e.brk, s)
 		e.popTarget()
+		out = e.pruneScope(out, s.Body) // variables of the body die with the iteration
 		if s.Post != nil {
 			out = e.stmt(s.Post, out)
 		}
@@ -623,6 +624,7 @@ func (e *Engine) rangeStmt(s *ast.RangeStmt, in []*State) []*State {
 		out = append(out, e.take(e.cont, s)...)
 		e.take(e.brk, s)
 		e.popTarget()
+		out = e.pruneScope(out, s.Body) // variables of the body die with the iteration
 		out = compact(out)
 		if iter >= 1 {
 			out = widen(head.list, out)
